@@ -245,6 +245,7 @@ func checkC06(c *Ctx) {
 		c.Floor("C06.R1", "forward sites on paths of doIntentRequestChecks", forwards, 1)
 	}
 
+	c06Request(c)
 	c06NoDeadline(c)
 	c06Serialise(c)
 	c06Hopclient(c)
@@ -560,4 +561,140 @@ func c06NoDeadline(c *Ctx) {
 	if !bad {
 		c.OK("C06.R5", "deadline:targetConn", "-", fmt.Sprintf("%d method calls on p.targetConn, none arms a read deadline", n))
 	}
+}
+
+// c06Request: the principal's request reader. The stream is not framed, so a request that
+// fails to decode leaves its tail unread: the only sound reaction is to stop.
+func c06Request(c *Ctx) {
+	P := c.P
+	fn := P.Func("authgrants", "(*principalInstance).handleIntentRequest")
+	if fn == nil {
+		c.Undecided("C06.R3", "authgrants.(*principalInstance).handleIntentRequest", "function not found")
+		return
+	}
+	name := FuncName(fn)
+	c.Analysed(name)
+	rir := hopID("authgrants", "", "ReadIntentRequest")
+	wden := hopID("authgrants", "", "WriteIntentDenied")
+	wconf := hopID("authgrants", "", "WriteIntentConfirmation")
+	chk := hopID("authgrants", "principalInstance", "doIntentRequestChecks")
+	fs := newFailSet()
+	nRead := 0
+	ok := walkAll(c, "C06.R3", fn, func(p *Path) {
+		if p.Returns() == nil {
+			return
+		}
+		last := len(p.Blocks) - 1
+		var readCall *ssa.Call
+		answers, checks := 0, 0
+		var chkCall *ssa.Call
+		for _, pc := range callsOnPath(p) {
+			switch calleeID(pc.call) {
+			case rir:
+				readCall = pc.call
+			case wden, wconf:
+				answers++
+			case chk:
+				checks++
+				chkCall = pc.call
+			}
+		}
+		if readCall == nil {
+			if answers+checks > 0 {
+				fs.add("request-read", "an answer is produced on a path that read no request", p.Exit(), p)
+			}
+			return
+		}
+		nRead++
+		ev := errResultOf(readCall)
+		if ev != nil && p.Nilness(ev, last) == isNil {
+			// request decoded: handled exactly once, and that result is what the loop sees
+			if checks != 1 || answers != 0 {
+				fs.add("request-read", fmt.Sprintf("a decoded request is handed to doIntentRequestChecks %d times and answered %d times directly (exactly one hand-over required)", checks, answers), p.Exit(), p)
+			} else if r := p.Returns(); p.Resolve(r.Results[len(r.Results)-1], last) != ssa.Value(chkCall) {
+				fs.add("request-read", "the result of doIntentRequestChecks is not what handleIntentRequest returns (a failed answer would not end the conversation)", p.Exit(), p)
+			}
+			return
+		}
+		// request not decoded
+		if answers+checks > 0 {
+			fs.add("decode-error-ends", "a request that failed to decode is answered: the stream is not framed, so the unread tail of that request is then parsed as further requests, each producing another answer (or a confirmation for bytes the principal never approved as a request)", p.Exit(), p)
+		}
+		if errReturnClass(p) != nonNil {
+			fs.add("decode-error-ends", "handleIntentRequest does not return an error when the request failed to decode: run() keeps reading the same unframed stream from the middle of a message", p.Exit(), p)
+		}
+	})
+	if ok {
+		fs.report(c, "C06.R3", name, []string{"request-read", "decode-error-ends"}, P.Pos(fn.Pos()), "decoded requests are handled once; a decode error ends the conversation without an answer")
+		c.Floor("C06.R3", "paths of handleIntentRequest that read a request", nRead, 2)
+	}
+	// run(): leaves its loop when handleIntentRequest fails
+	run := P.Func("authgrants", "(*principalInstance).run")
+	if run == nil {
+		c.Undecided("C06.R3", "authgrants.(*principalInstance).run", "function not found")
+		return
+	}
+	hid := hopID("authgrants", "principalInstance", "handleIntentRequest")
+	bad := ""
+	nCalls := 0
+	for _, cs := range callSitesIn(run, false, hid) {
+		call, ok := cs.(*ssa.Call)
+		if !ok {
+			continue
+		}
+		nCalls++
+		// the block reached when the result is non-nil must not lead back to the call
+		found := false
+		for _, b := range run.Blocks {
+			t, ok := b.Instrs[len(b.Instrs)-1].(*ssa.If)
+			if !ok {
+				continue
+			}
+			key, pol := normCond(t.Cond)
+			if key.op != token.EQL || key.y != nil || p06src(key.x) != ssa.Value(call) {
+				continue
+			}
+			found = true
+			// key: x == nil with polarity pol; the non-nil successor:
+			nonNilSucc := b.Succs[1]
+			if !pol {
+				nonNilSucc = b.Succs[0]
+			}
+			if blockReaches(nonNilSucc, call.Block()) {
+				bad = P.InstrPos(call)
+			}
+		}
+		if !found {
+			bad = P.InstrPos(call) + " (result not tested)"
+		}
+	}
+	c.Check(bad == "" && nCalls > 0, "C06.R3", FuncName(run)+"#stops-on-error", P.Pos(run.Pos()), "the request loop ends when handling a request fails", "run() can call handleIntentRequest again after it returned an error ("+bad+"): the conversation continues on a stream whose position is unknown")
+}
+
+func p06src(v ssa.Value) ssa.Value {
+	if s := loadSource(v); s != nil {
+		return s
+	}
+	return v
+}
+
+func blockReaches(from, to *ssa.BasicBlock) bool {
+	seen := map[*ssa.BasicBlock]bool{}
+	var dfs func(b *ssa.BasicBlock) bool
+	dfs = func(b *ssa.BasicBlock) bool {
+		if b == to {
+			return true
+		}
+		if seen[b] {
+			return false
+		}
+		seen[b] = true
+		for _, s := range b.Succs {
+			if dfs(s) {
+				return true
+			}
+		}
+		return false
+	}
+	return dfs(from)
 }
